@@ -15,7 +15,7 @@ PROPERTY = "C16"
 LEVEL = "exploration"
 SHARDS = {"quick": 8, "thorough": 16}
 BUDGET = {"quick": 25.0, "thorough": 420.0}
-REQUIRE = {"ops_applied": 20000, "focus_moved_by_mutation": 100, "errors_matched": 100}
+REQUIRE = {"ops_applied": 20000, "focus_moved_by_mutation": 100, "errors_matched": 100, "large_list_ops_focus_above_256": 300, "large_list_noop_focus_assignments": 20}
 RULE = (
     "op histories over MonitoredFocusList / MonitoredList / SimpleFocusListWalker / SimpleListWalker / "
     "Pile, Columns, GridFlow .contents; exhaustive depth-1 over every (len 0..5, focus) state x the full op universe "
@@ -620,6 +620,7 @@ def run(ctx):
                 for op2 in small:
                     run_history(ctx, "MonitoredFocusList", n, f, [op1, op2])
     ctx.extra["depth2_complete_in_budget"] = depth2_done
+    idx = 0  # (the depth-2 loop may stop early: later sections partition from their own origin)
     if not ctx.quick:
         tiny = universe(idx=[-2, -1, 0, 1, 2], bounds=[None, -2, -1, 0, 1, 2], steps=[None, -1, 2, -2], full=False)
         ctx.extra["op_universe_depth3"] = len(tiny)
@@ -632,14 +633,49 @@ def run(ctx):
                     for op2 in tiny:
                         for op3 in tiny:
                             run_history(ctx, "MonitoredFocusList", n, f, [op1, op2, op3])
-    # random histories
+    # long lists: positions beyond the small-integer range of the interpreter (equal indices are then distinct
+    # objects), focus just below / at / above 256 and near the end; one op and two ops relative to the focus
     rng = ctx.rng
+    idx = 0
+    for flav in ("MonitoredFocusList", "SimpleFocusListWalker", "Pile.contents"):
+        if flav not in FLAVOURS:
+            continue
+        for n in (258, 300, 600):
+            for f in sorted({255, 256, 257, n - 2, n - 1, n // 2 + 130}):
+                if not 0 <= f < n:
+                    continue
+                rel = [
+                    ["focus", f], ["focus", f - 1], ["focus", f + 1], ["focus", n - 1], ["focus", n],
+                    ["set", 0], ["set", f - 1], ["set", f], ["set", f + 1], ["set", -1], ["set", -n - 1], ["set", n],
+                    ["setslice", [0, 3, None], 3], ["setslice", [f - 2, f, None], "exact"], ["setslice", [f, f + 2, None], "exact"],
+                    ["setslice", [0, f, 2], "exact"], ["setslice", [1, 4, None], 0], ["setslice", [1, 1, None], 2],
+                    ["del", 0], ["del", f], ["del", n - 1], ["del", n], ["insert", 0], ["insert", f], ["insert", n], ["append"],
+                    ["pop", None], ["pop", 0], ["reverse"], ["sort", next(iter(SORT_KEYS)), False], ["imul", 1], ["extend", 0], ["iadd", 0],
+                    ["delslice", [0, 2, None]], ["delslice", [f + 1, None, None]], ["delslice", [5, 5, None]],
+                ]
+                for j, op in enumerate(rel):
+                    idx += 1
+                    if not ctx.mine(idx):
+                        continue
+                    if ctx.quick and flav != "MonitoredFocusList" and (idx // ctx.nshards) % 3:
+                        continue
+                    second = rel[(j * 7 + f) % len(rel)]
+                    for ops in ([op], [op, second]):
+                        s = run_history(ctx, flav, n, f, ops)
+                        ctx.count("large_list_ops_focus_above_256" if f > 256 else "large_list_ops_focus_up_to_256", len(s.history))
+                        if op[0] == "focus" and op[1] == f:
+                            ctx.count("large_list_noop_focus_assignments")
+    # random histories
     k = 0
     while ctx.more(1.0):
         k += 1
         flav = rng.choice(flavs)
         n = rng.randint(0, 12)
+        if k % 25 == 0:
+            n = rng.choice([257, 300, 520])
         f = rng.randrange(n) if n else 0
+        if n > 256 and rng.random() < 0.7:
+            f = rng.randrange(256, n)
         s = Session(ctx, FLAVOURS[flav], n, f)
         for _ in range(rng.randint(3, 40)):
             op = rand_op(rng, max(len(s.model), 1))
